@@ -1290,4 +1290,313 @@ theorem postParse_capture_fd (cfg : Cfg) (st : St) (hm : cfg.method = .fd) (hw :
       OS.count_setFd_some _ 0 t0 _ c0, ccount]
   · simp [miscOf, cpy, k4, k5]
 
+/-! ## Layer 4 — a whole build -/
+
+theorem buildOps_eq (cfg : Cfg) (mods : List ModSpec) (ios : List TaskIO) (h : cfg.configFails = false) :
+    buildOps cfg mods ios =
+      [Op.postParse "warnings", .postParse "profile", .postParse "mark", .postParse "logging", .postParse "live",
+       .postParse "execute", .postParse "database", .postParse "config", .postParse "capture", .postParse "build",
+       .postParse "debugging", .collect mods, .collectLog] ++ (phaseList ios).map Phase.op ++
+      [.unconfigure "task", .unconfigure "logging", .unconfigure "provisional", .unconfigure "debugging", .unconfigure "build"] := by
+  simp [buildOps, h, Generated.postParseOrder, Generated.unconfigureAfterLadder, Generated.unconfigureImpls, phaseOps_eq]
+
+/-- the session state a build starts with -/
+def fresh (st : St) : St := { st with secs := [], tasks := [], collectFailed := false }
+
+/-- the state just before `capture.pytask_post_parse`: logging and the database have been configured -/
+def beforeCapture (cfg : Cfg) (st : St) : St :=
+  { fresh st with w := { st.w with os := st.w.os.openNew.1
+                                   py := { st.w.py with reportVars := cfg.reportVars
+                                                        garbage := st.w.py.garbage ++ st.w.py.dbFd.toList
+                                                        dbFd := some st.w.os.free } } }
+
+theorem runOps_config_prefix (cfg : Cfg) (st : St) :
+    runOps cfg (fresh st) [Op.postParse "warnings", .postParse "profile", .postParse "mark", .postParse "logging", .postParse "live",
+       .postParse "execute", .postParse "database", .postParse "config"] = beforeCapture cfg st := rfl
+
+theorem beforeCapture_std (cfg : Cfg) (st : St) (hw : StdW st.w) : StdW (beforeCapture cfg st).w :=
+  ⟨hw.os.openNew, hw.sout, hw.serr, hw.nofault⟩
+
+theorem beforeCapture_fd (cfg : Cfg) (st : St) (hw : StdW st.w) (j : Nat) (hj : j < 3) :
+    (beforeCapture cfg st).w.os.fd j = st.w.os.fd j := by
+  have := st.w.os.free_ge3 hw.os
+  show st.w.os.openNew.1.fd j = _
+  rw [OS.fd_openNew, if_neg (by omega)]
+
+
+theorem Inert.ofEq {st st' : St} (h : st' = st) : Inert st st' := by subst h; exact ⟨rfl, rfl, rfl, rfl, rfl, rfl, rfl, rfl⟩
+
+/-- `Inert` steps used in a build, with what they do to the registries -/
+theorem inert_debugging_pp (cfg : Cfg) (st : St) : Inert st (step cfg st (.postParse "debugging")) :=
+  ⟨rfl, rfl, rfl, rfl, rfl, rfl, rfl, rfl⟩
+
+/-- the five `pytask_unconfigure` implementations, given that `debugging.pytask_post_parse` pushed -/
+theorem unconfigure_all (cfg : Cfg) (st : St) (x : Nat) (rest : List Nat) (h : st.w.py.pdbSaved = x :: rest) :
+    let st' := runOps cfg st [.unconfigure "task", .unconfigure "logging", .unconfigure "provisional", .unconfigure "debugging", .unconfigure "build"]
+    Inert st st' ∧ st'.tasks = st.tasks ∧ st'.collectFailed = st.collectFailed ∧
+    st'.w.py = { st.w.py with collected := [], reportVars := 0, provisional := [], setTrace := x, pdbSaved := rest } := by
+  simp only [runOps, List.foldl_cons, List.foldl_nil, step_unconfigure_task, step_unconfigure_logging,
+    step_unconfigure_provisional, step_unconfigure_build]
+  rw [step_unconfigure_debugging _ _ x rest (by simpa using h)]
+  exact ⟨⟨rfl, rfl, rfl, rfl, rfl, rfl, rfl, rfl⟩, rfl, rfl, rfl⟩
+
+/-- collection touches `sys.modules` and `COLLECTED_TASKS` only -/
+theorem collect_py (cfg : Cfg) (st : St) (mods : List ModSpec) :
+    ∃ ms cs, (step cfg st (.collect mods)).w.py = { st.w.py with modules := ms, collected := cs } := by
+  have key : ∀ (l : List ModSpec) (p : Py), ∃ ms cs, (collectAll p l).1 = { p with modules := ms, collected := cs } := by
+    intro l
+    induction l with
+    | nil => intro p; exact ⟨p.modules, p.collected, rfl⟩
+    | cons m l ih =>
+      intro p
+      have h1 : ∃ ms cs, (collectModule p m).1 = { p with modules := ms, collected := cs } := by
+        unfold collectModule; split
+        · exact ⟨_, _, rfl⟩
+        · split <;> exact ⟨_, _, rfl⟩
+      obtain ⟨ms1, cs1, e1⟩ := h1
+      obtain ⟨ms2, cs2, e2⟩ := ih (collectModule p m).1
+      refine ⟨ms2, cs2, ?_⟩
+      simp only [collectAll]; rw [e2, e1]
+  obtain ⟨ms, cs, e⟩ := key mods st.w.py
+  exact ⟨ms, cs, e⟩
+
+theorem build_fd (cfg : Cfg) (st0 : St) (mods : List ModSpec) (ios : List TaskIO)
+    (hm : cfg.method = .fd) (hcf : cfg.configFails = false) (hw : StdW st0.w) :
+    ∃ p : FdP, ∃ ins, FdReady (runBuild cfg mods ios st0) p ins ∧
+      st0.w.os.fd 0 = some p.t0 ∧ st0.w.os.fd 1 = some p.t1 ∧ st0.w.os.fd 2 = some p.t2 ∧
+      st0.w.os.files.length < p.g1 ∧ st0.w.os.files.length < p.g2 ∧
+      (runBuild cfg mods ios st0).secs = (phaseList ios).flatMap (Phase.secs (fun _ => true)) ∧
+      (∀ f, f < st0.w.os.files.length → (runBuild cfg mods ios st0).w.os.file f = st0.w.os.file f) ∧
+      (runBuild cfg mods ios st0).w.os.count = st0.w.os.count + 7 ∧
+      (runBuild cfg mods ios st0).w.py.filters = st0.w.py.filters ∧
+      (runBuild cfg mods ios st0).w.py.setTrace = st0.w.py.setTrace ∧
+      (runBuild cfg mods ios st0).w.py.pdbSaved = st0.w.py.pdbSaved ∧
+      (runBuild cfg mods ios st0).w.py.reportVars = 0 ∧
+      (runBuild cfg mods ios st0).w.py.provisional = [] ∧
+      (runBuild cfg mods ios st0).w.py.collected = [] := by
+  obtain ⟨⟨t0, e0, l0⟩, ⟨t1, e1, l1⟩, ⟨t2, e2, l2⟩⟩ := hw.os
+  have hb := beforeCapture_std cfg st0 hw
+  obtain ⟨p, hp, pt0, pt1, pt2, pg0, pg1, pg2, cfile, ccount, csecs, ctasks, ccf, cmisc⟩ :=
+    postParse_capture_fd cfg (beforeCapture cfg st0) hm hb t0 t1 t2
+      (by rw [beforeCapture_fd cfg st0 hw 0 (by omega), e0]) (by rw [beforeCapture_fd cfg st0 hw 1 (by omega), e1])
+      (by rw [beforeCapture_fd cfg st0 hw 2 (by omega), e2])
+  unfold runBuild
+  rw [buildOps_eq cfg mods ios hcf]
+  simp only [runOps, List.foldl_append, List.cons_append, List.nil_append]
+  have hpre := runOps_config_prefix cfg st0
+  simp only [runOps, fresh, List.foldl_cons, List.foldl_nil] at hpre
+  simp only [List.foldl_cons, List.foldl_nil, List.foldl_append]
+  rw [hpre]
+  generalize hsc : step cfg (beforeCapture cfg st0) (.postParse "capture") = sc at *
+  rw [step_postParse_neutral cfg sc "build" (by simp)]
+  -- debugging, collect, collect_log
+  have i1 := inert_debugging_pp cfg sc
+  generalize hsd : step cfg sc (.postParse "debugging") = sd at *
+  have hsd_py : sd.w.py = { sc.w.py with pdbSaved := sc.w.py.setTrace :: sc.w.py.pdbSaved, setTrace := 1 } := by rw [← hsd]; rfl
+  have hsd_t : sd.tasks = sc.tasks ∧ sd.collectFailed = sc.collectFailed := by rw [← hsd]; exact ⟨rfl, rfl⟩
+  have i2 := inert_collect cfg sd mods
+  generalize hse : step cfg sd (.collect mods) = se at *
+  obtain ⟨ms, cs, hse_py⟩ := collect_py cfg sd mods
+  rw [hse] at hse_py
+  have r1 := (hp.inert i1).inert i2
+  obtain ⟨r2, lfile, lcount, lsecs, ltasks, lcf, lmisc⟩ := collectLog_fd cfg se p r1
+  generalize hsf : step cfg se .collectLog = sf at *
+  -- windows
+  obtain ⟨⟨ins, r3⟩, wsecs, wfile, wcount, wtasks, wcf, wmisc⟩ := (law_fd cfg p).phases (phaseList ios) sf ⟨_, r2⟩
+  simp only [runOps] at r3 wsecs wfile wcount wtasks wcf wmisc
+  generalize hsg : List.foldl (step cfg) sf (List.map Phase.op (phaseList ios)) = sg at *
+  -- unconfigure
+  have hbc : (preCapture cfg (beforeCapture cfg st0)).w.py = { (beforeCapture cfg st0).w.py with
+      garbage := (beforeCapture cfg st0).w.py.garbage ++ ((beforeCapture cfg st0).cm.map CM.owned).getD [] } := rfl
+  simp only [miscOf, Prod.mk.injEq] at cmisc lmisc wmisc
+  have hpdb : sg.w.py.pdbSaved = st0.w.py.setTrace :: st0.w.py.pdbSaved := by
+    rw [wmisc.2.2.1, lmisc.2.2.1, hse_py, hsd_py]; simp only []; rw [cmisc.2.1, cmisc.2.2.1, hbc]; rfl
+  obtain ⟨u1, u2, u3, u4⟩ := unconfigure_all cfg sg _ _ hpdb
+  simp only [runOps, List.foldl_cons, List.foldl_nil] at u1 u2 u3 u4
+  refine ⟨p, ins, r3.inert u1, by rw [pt0, e0], by rw [pt1, e1], by rw [pt2, e2], ?_, ?_, ?_, ?_, ?_, ?_, ?_, ?_, ?_, ?_, ?_⟩
+  · rw [pg1]; show st0.w.os.files.length < st0.w.os.openNew.1.files.length + 1; simp; omega
+  · rw [pg2]; show st0.w.os.files.length < st0.w.os.openNew.1.files.length + 2; simp; omega
+  · rw [u1.secs, wsecs, lsecs, ← hse, ← hsd]; show sc.secs ++ _ = _; rw [csecs]; rfl
+  · intro f hf
+    have hg1 : f ≠ p.g1 := by rw [pg1]; show f ≠ st0.w.os.openNew.1.files.length + 1; simp; omega
+    have hg2 : f ≠ p.g2 := by rw [pg2]; show f ≠ st0.w.os.openNew.1.files.length + 2; simp; omega
+    rw [u1.os, wfile f ⟨hg1, hg2⟩, lfile, i2.os, i1.os, cfile]
+    have : outText (fun _ => false) (allWrites (phaseList ios)) = [] := by simp [outText]
+    rw [this, List.append_nil]
+    show st0.w.os.openNew.1.file f = _; simp
+  · rw [u1.os, wcount, lcount, i2.os, i1.os, ccount]; show st0.w.os.openNew.1.count + 6 = _; rw [OS.count_openNew]
+  · rw [u4]; simp only []; rw [wmisc.1, lmisc.1, hse_py, hsd_py]; simp only []; rw [cmisc.1, hbc]; rfl
+  · rw [u4]
+  · rw [u4]
+  · rw [u4]
+  · rw [u4]
+  · rw [u4]
+
+
+theorem phases_sys_extra (cfg : Cfg) (p : SysP) (phs : List Phase) (st : St) (h : ∃ ins, SysReady st p ins) :
+    (runOps cfg st (phs.map Phase.op)).w.os.fdt = st.w.os.fdt ∧
+    (p.tee = true → (runOps cfg st (phs.map Phase.op)).w.py.stdin = st.w.py.stdin) := by
+  induction phs generalizing st with
+  | nil => exact ⟨rfl, fun _ => rfl⟩
+  | cons ph phs ih =>
+    obtain ⟨ins, hr⟩ := h
+    obtain ⟨a1, _, _, a4, _, _, B, a7⟩ := phase_sys cfg st p ins hr ph.1 ph.2.1 ph.2.2.1 ph.2.2.2
+    obtain ⟨b1, b2⟩ := ih (step cfg st ph.op) ⟨_, a1⟩
+    simp only [runOps, List.map_cons, List.foldl_cons] at b1 b2 ⊢
+    refine ⟨b1.trans a4, fun ht => ?_⟩
+    rw [b2 ht]
+    show (step cfg st (.phase ph.1 ph.2.1 ph.2.2.1 ph.2.2.2)).w.py.stdin = _
+    rw [a7]; simp [ht]
+
+theorem build_sys (cfg : Cfg) (st0 : St) (mods : List ModSpec) (ios : List TaskIO) (tee : Bool)
+    (hm : cfg.method = if tee then .teeSys else .sys) (hcf : cfg.configFails = false) (hw : StdW st0.w) :
+    ∃ p : SysP, ∃ ins, SysReady (runBuild cfg mods ios st0) p ins ∧ p.tee = tee ∧
+      st0.w.os.fd 1 = some p.t1 ∧ st0.w.os.fd 2 = some p.t2 ∧
+      (runBuild cfg mods ios st0).secs = (phaseList ios).flatMap (Phase.secs (fun c => c.isPy)) ∧
+      (∀ f, (runBuild cfg mods ios st0).w.os.file f = st0.w.os.file f ++
+        outText (fun c => (tee || !c.isPy) && ((!c.isErr && p.t1 == f) || (c.isErr && p.t2 == f))) (allWrites (phaseList ios))) ∧
+      (runBuild cfg mods ios st0).w.os.count = st0.w.os.count + 1 ∧
+      (∀ j, j < 3 → (runBuild cfg mods ios st0).w.os.fd j = st0.w.os.fd j) ∧
+      (tee = true → (runBuild cfg mods ios st0).w.py.stdin = st0.w.py.stdin) ∧
+      (runBuild cfg mods ios st0).w.py.filters = st0.w.py.filters ∧
+      (runBuild cfg mods ios st0).w.py.setTrace = st0.w.py.setTrace ∧
+      (runBuild cfg mods ios st0).w.py.pdbSaved = st0.w.py.pdbSaved ∧
+      (runBuild cfg mods ios st0).w.py.reportVars = 0 ∧
+      (runBuild cfg mods ios st0).w.py.provisional = [] ∧
+      (runBuild cfg mods ios st0).w.py.collected = [] := by
+  obtain ⟨⟨t0, e0, l0⟩, ⟨t1, e1, l1⟩, ⟨t2, e2, l2⟩⟩ := hw.os
+  have hb := beforeCapture_std cfg st0 hw
+  obtain ⟨p, hp, ptee, pt1, pt2, cos, csecs, cmisc, cstdin⟩ :=
+    postParse_capture_sys cfg (beforeCapture cfg st0) tee hm hb t1 t2
+      (by rw [beforeCapture_fd cfg st0 hw 1 (by omega), e1]) (by rw [beforeCapture_fd cfg st0 hw 2 (by omega), e2])
+  unfold runBuild
+  rw [buildOps_eq cfg mods ios hcf]
+  simp only [runOps, List.foldl_append, List.cons_append, List.nil_append]
+  have hpre := runOps_config_prefix cfg st0
+  simp only [runOps, fresh, List.foldl_cons, List.foldl_nil] at hpre
+  simp only [List.foldl_cons, List.foldl_nil, List.foldl_append]
+  rw [hpre]
+  generalize hsc : step cfg (beforeCapture cfg st0) (.postParse "capture") = sc at *
+  rw [step_postParse_neutral cfg sc "build" (by simp)]
+  have i1 := inert_debugging_pp cfg sc
+  generalize hsd : step cfg sc (.postParse "debugging") = sd at *
+  have hsd_py : sd.w.py = { sc.w.py with pdbSaved := sc.w.py.setTrace :: sc.w.py.pdbSaved, setTrace := 1 } := by rw [← hsd]; rfl
+  have i2 := inert_collect cfg sd mods
+  obtain ⟨ms, cs, hse_py⟩ := collect_py cfg sd mods
+  generalize hse : step cfg sd (.collect mods) = se at *
+  have r1 := (hp.inert i1).inert i2
+  obtain ⟨r2, los, lsecs, ltasks, lcf, lmisc⟩ := collectLog_sys cfg se p r1
+  have lstdin : p.tee = true → (step cfg se .collectLog).w.py.stdin = se.w.py.stdin := by
+    intro ht
+    rw [step_collectLog]
+    simp [runCalls, runCall, withCM, r1.cm, CM.suspend, MC.suspendCapturing, sysMC, optCap, ht, Cap.suspend, SysCap.suspend,
+      W.setStd, Py.setStd]
+  generalize hsf : step cfg se .collectLog = sf at *
+  obtain ⟨⟨ins, r3⟩, wsecs, wfile, wcount, wtasks, wcf, wmisc⟩ := (law_sys cfg p).phases (phaseList ios) sf ⟨_, r2⟩
+  obtain ⟨xfdt, xstdin⟩ := phases_sys_extra cfg p (phaseList ios) sf ⟨_, r2⟩
+  simp only [runOps] at r3 wsecs wfile wcount wtasks wcf wmisc xfdt xstdin
+  generalize hsg : List.foldl (step cfg) sf (List.map Phase.op (phaseList ios)) = sg at *
+  have hbc : (preCapture cfg (beforeCapture cfg st0)).w.py = { (beforeCapture cfg st0).w.py with
+      garbage := (beforeCapture cfg st0).w.py.garbage ++ ((beforeCapture cfg st0).cm.map CM.owned).getD [] } := rfl
+  simp only [miscOf, Prod.mk.injEq] at cmisc lmisc wmisc
+  have hpdb : sg.w.py.pdbSaved = st0.w.py.setTrace :: st0.w.py.pdbSaved := by
+    rw [wmisc.2.2.1, lmisc.2.2.1, hse_py, hsd_py]; simp only []; rw [cmisc.2.1, cmisc.2.2.1]; rfl
+  obtain ⟨u1, u2, u3, u4⟩ := unconfigure_all cfg sg _ _ hpdb
+  simp only [runOps, List.foldl_cons, List.foldl_nil] at u1 u2 u3 u4
+  refine ⟨p, ins, r3.inert u1, ptee, by rw [pt1, e1], by rw [pt2, e2], ?_, ?_, ?_, ?_, ?_, ?_, ?_, ?_, ?_, ?_, ?_⟩
+  · rw [u1.secs, wsecs, lsecs, ← hse, ← hsd]; show sc.secs ++ _ = _; rw [csecs]; rfl
+  · intro f
+    rw [u1.os, wfile f trivial, los, i2.os, i1.os, cos, ptee]
+    show st0.w.os.openNew.1.file f ++ _ = _; simp
+  · rw [u1.os, wcount, los, i2.os, i1.os, cos]; show st0.w.os.openNew.1.count = _; rw [OS.count_openNew]
+  · intro j hj
+    have hfd : sg.w.os.fd j = sf.w.os.fd j := by simp [OS.fd, xfdt]
+    rw [u1.os, hfd, los, i2.os, i1.os, cos]; exact beforeCapture_fd cfg st0 hw j hj
+  · intro ht
+    rw [u1.sin, xstdin (ptee.trans ht), lstdin (ptee.trans ht), i2.sin, i1.sin, cstdin ht]; rfl
+  · rw [u4]; simp only []; rw [wmisc.1, lmisc.1, hse_py, hsd_py]; simp only []; rw [cmisc.1]; rfl
+  · rw [u4]
+  · rw [u4]
+  · rw [u4]
+  · rw [u4]
+  · rw [u4]
+
+
+theorem phases_no_extra (cfg : Cfg) (t1 t2 : Nat) (phs : List Phase) (st : St) (h : NoReady st t1 t2) :
+    (runOps cfg st (phs.map Phase.op)).w.os.fdt = st.w.os.fdt ∧
+    (runOps cfg st (phs.map Phase.op)).w.py = st.w.py := by
+  induction phs generalizing st with
+  | nil => exact ⟨rfl, rfl⟩
+  | cons ph phs ih =>
+    obtain ⟨a1, _, _, a4, _, _, a7⟩ := phase_no cfg st t1 t2 h ph.1 ph.2.1 ph.2.2.1 ph.2.2.2
+    obtain ⟨b1, b2⟩ := ih (step cfg st ph.op) a1
+    simp only [runOps, List.map_cons, List.foldl_cons] at b1 b2 ⊢
+    exact ⟨b1.trans a4, b2.trans a7⟩
+
+theorem build_no (cfg : Cfg) (st0 : St) (mods : List ModSpec) (ios : List TaskIO)
+    (hm : cfg.method = .no) (hcf : cfg.configFails = false) (hw : StdW st0.w) :
+    ∃ t1 t2, NoReady (runBuild cfg mods ios st0) t1 t2 ∧
+      st0.w.os.fd 1 = some t1 ∧ st0.w.os.fd 2 = some t2 ∧
+      (runBuild cfg mods ios st0).secs = [] ∧
+      (∀ f, (runBuild cfg mods ios st0).w.os.file f = st0.w.os.file f ++
+        outText (fun c => (!c.isErr && t1 == f) || (c.isErr && t2 == f)) (allWrites (phaseList ios))) ∧
+      (runBuild cfg mods ios st0).w.os.count = st0.w.os.count + 1 ∧
+      (∀ j, j < 3 → (runBuild cfg mods ios st0).w.os.fd j = st0.w.os.fd j) ∧
+      (runBuild cfg mods ios st0).w.py.stdin = st0.w.py.stdin ∧
+      (runBuild cfg mods ios st0).w.py.filters = st0.w.py.filters ∧
+      (runBuild cfg mods ios st0).w.py.setTrace = st0.w.py.setTrace ∧
+      (runBuild cfg mods ios st0).w.py.pdbSaved = st0.w.py.pdbSaved ∧
+      (runBuild cfg mods ios st0).w.py.reportVars = 0 ∧
+      (runBuild cfg mods ios st0).w.py.provisional = [] ∧
+      (runBuild cfg mods ios st0).w.py.collected = [] := by
+  obtain ⟨⟨t0, e0, l0⟩, ⟨t1, e1, l1⟩, ⟨t2, e2, l2⟩⟩ := hw.os
+  have hb := beforeCapture_std cfg st0 hw
+  obtain ⟨hp, cos, csecs, cpy⟩ :=
+    postParse_capture_no cfg (beforeCapture cfg st0) hm hb t1 t2
+      (by rw [beforeCapture_fd cfg st0 hw 1 (by omega), e1]) (by rw [beforeCapture_fd cfg st0 hw 2 (by omega), e2])
+  unfold runBuild
+  rw [buildOps_eq cfg mods ios hcf]
+  simp only [runOps, List.foldl_append, List.cons_append, List.nil_append]
+  have hpre := runOps_config_prefix cfg st0
+  simp only [runOps, fresh, List.foldl_cons, List.foldl_nil] at hpre
+  simp only [List.foldl_cons, List.foldl_nil, List.foldl_append]
+  rw [hpre]
+  generalize hsc : step cfg (beforeCapture cfg st0) (.postParse "capture") = sc at *
+  rw [step_postParse_neutral cfg sc "build" (by simp)]
+  have i1 := inert_debugging_pp cfg sc
+  generalize hsd : step cfg sc (.postParse "debugging") = sd at *
+  have hsd_py : sd.w.py = { sc.w.py with pdbSaved := sc.w.py.setTrace :: sc.w.py.pdbSaved, setTrace := 1 } := by rw [← hsd]; rfl
+  have i2 := inert_collect cfg sd mods
+  obtain ⟨ms, cs, hse_py⟩ := collect_py cfg sd mods
+  generalize hse : step cfg sd (.collect mods) = se at *
+  have r1 := (hp.inert i1).inert i2
+  obtain ⟨r2, l1', lpy, ltasks, lcf⟩ := collectLog_no cfg se t1 t2 r1
+  generalize hsf : step cfg se .collectLog = sf at *
+  obtain ⟨r3, wsecs, wfile, wcount, wtasks, wcf, wmisc⟩ := (law_no cfg t1 t2).phases (phaseList ios) sf r2
+  obtain ⟨xfdt, xpy⟩ := phases_no_extra cfg t1 t2 (phaseList ios) sf r2
+  simp only [runOps] at r3 wsecs wfile wcount wtasks wcf wmisc xfdt xpy
+  generalize hsg : List.foldl (step cfg) sf (List.map Phase.op (phaseList ios)) = sg at *
+  have hpdb : sg.w.py.pdbSaved = st0.w.py.setTrace :: st0.w.py.pdbSaved := by
+    rw [xpy, lpy, hse_py, hsd_py]; simp only []; rw [cpy]; rfl
+  obtain ⟨u1, u2, u3, u4⟩ := unconfigure_all cfg sg _ _ hpdb
+  simp only [runOps, List.foldl_cons, List.foldl_nil] at u1 u2 u3 u4
+  refine ⟨t1, t2, r3.inert u1, e1, e2, ?_, ?_, ?_, ?_, ?_, ?_, ?_, ?_, ?_, ?_, ?_⟩
+  · have : (phaseList ios).flatMap (Phase.secs (fun _ => false)) = [] := by
+      simp [Phase.secs, secsOf, outText]
+    rw [u1.secs, wsecs, l1'.secs, ← hse, ← hsd, this]; show sc.secs ++ [] = _; rw [csecs]; rfl
+  · intro f
+    rw [u1.os, wfile f trivial, l1'.os, i2.os, i1.os, cos]
+    show st0.w.os.openNew.1.file f ++ _ = _; simp
+  · rw [u1.os, wcount, l1'.os, i2.os, i1.os, cos]; show st0.w.os.openNew.1.count = _; rw [OS.count_openNew]
+  · intro j hj
+    have hfd : sg.w.os.fd j = sf.w.os.fd j := by simp [OS.fd, xfdt]
+    rw [u1.os, hfd, l1'.os, i2.os, i1.os, cos]; exact beforeCapture_fd cfg st0 hw j hj
+  · rw [u1.sin, xpy, lpy, i2.sin, i1.sin, cpy]; rfl
+  · rw [u4]; simp only []; rw [xpy, lpy, hse_py, hsd_py]; simp only []; rw [cpy]; rfl
+  · rw [u4]
+  · rw [u4]
+  · rw [u4]
+  · rw [u4]
+  · rw [u4]
+
 end Pytask.Capture
